@@ -60,7 +60,7 @@ def line_for(mask, tf, S, C):
 
 # ----------------------------------------------------------------------------- harness | oracle pipeline
 def shard_timeout(n):
-    return 30 + 0.03 * n
+    return 20 + 0.02 * n
 
 
 def pipe_lines(exe, oracle, lines, jobs=None):
@@ -105,7 +105,7 @@ def isolate(exe, lines):
     cur = list(lines)
 
     def bad(part):
-        p = vf.run_lines(exe, part, timeout=10 + 0.01 * len(part))
+        p = vf.run_lines(exe, part, timeout=4 + 0.005 * len(part))
         return p.returncode != 0 or p.stdout.count('\n') != len(part), p
     while len(cur) > 1:
         k = min(16, len(cur))
@@ -386,7 +386,7 @@ def cross_check(ctx, exe, oracle):
     for i in range(40):
         S, C = rectil.random_case(rng, rng.range(3, 6))
         lines.append(line_for(ALL, IDENT, S, C))
-    p = vf.run_lines(exe, lines, timeout=60)
+    p = vf.run_lines(exe, lines, timeout=15)
     if p.returncode != 0 or p.stdout.count('\n') != len(lines):
         ctx.cov['oracle_glue_crosscheck'] = 'skipped: harness crashed or hung on the cross-check inputs (isolated by the scopes below)'
         return
